@@ -193,6 +193,15 @@ type totalSpec struct {
 	Other string
 }
 
+// typeArgsOf gives the parenthesised type arguments reported for column i
+// (they are kept per statement, by column position).
+func typeArgsOf(st sql.CreateTableStmt, i int) string {
+	if i < len(st.TypeArgs) {
+		return st.TypeArgs[i]
+	}
+	return ""
+}
+
 func TestC16Total(t *testing.T) {
 	vt.Exec(t, vt.Check[totalSpec]{
 		ID: "C16", Test: "TestC16Total",
@@ -417,6 +426,10 @@ func runLocal(r *vt.Run, t vt.TB, s localSpec) {
 			continue
 		}
 		ast := alone.res.(sql.CreateTableStmt)
+		if len(ast.Columns) == 1 && typeArgsOf(ast, 0) != typeArgsOf(st, i) {
+			r.Violation(t, s, "local:column-type-arguments", "column %d of %q: type arguments reported as %q, the same text alone (%q) as %q", i, full, typeArgsOf(st, i), stmts[1+i], typeArgsOf(ast, 0))
+			return
+		}
 		if len(ast.Columns) != 1 || !reflect.DeepEqual(ast.Columns[0], st.Columns[i]) {
 			r.Violation(t, s, "local:column", "column %d of %q reported as %+v, the same text alone (%q) as %+v", i, full, st.Columns[i], stmts[1+i], ast.Columns)
 			return
@@ -445,6 +458,10 @@ func runLocal(r *vt.Run, t vt.TB, s localSpec) {
 			pst := po.res.(sql.CreateTableStmt)
 			if len(pst.Columns) == len(s.Perm) {
 				for i, p := range s.Perm {
+					if typeArgsOf(pst, i) != typeArgsOf(st, p) {
+						r.Violation(t, s, "local:reorder-type-arguments", "column %q: type arguments %q in %q but %q in %q", tb.Cols[p].SQL(), typeArgsOf(st, p), full, typeArgsOf(pst, i), stmts[len(stmts)-1])
+						return
+					}
 					if !reflect.DeepEqual(pst.Columns[i], st.Columns[p]) {
 						r.Violation(t, s, "local:reorder", "column %q reported as %+v in %q but as %+v in %q", tb.Cols[p].SQL(), st.Columns[p], full, pst.Columns[i], stmts[len(stmts)-1])
 						return
